@@ -84,10 +84,10 @@ type chunkRes struct {
 }
 
 type readRes struct {
-	N     int
-	Err   string // "", "EOF", "error"
-	Sum   string
-	Truth string // "" = bytes equal the ground truth, "?" = no ground truth, else description
+	N       int
+	Err     string // "", "EOF", "error"
+	Sum     string
+	Truth   string // "" = bytes equal the ground truth, "?" = no ground truth, else description
 	ErrText string // not compared, only shown
 }
 
@@ -160,15 +160,15 @@ type task struct {
 }
 
 type walker struct {
-	cur   metadata.Reader
-	orig  metadata.Reader
-	blob  []byte
-	rng   *prng.R
-	seed  uint64 // probe seed (same for every store of the case)
-	tr    *truth
-	d     *Dump
-	front []task
-	byID  map[uint32][]string
+	cur    metadata.Reader
+	orig   metadata.Reader
+	blob   []byte
+	rng    *prng.R
+	seed   uint64 // probe seed (same for every store of the case)
+	tr     *truth
+	d      *Dump
+	front  []task
+	byID   map[uint32][]string
 	visits int
 	clones int
 	preRaw []preRawRec
